@@ -27,6 +27,13 @@ readers make into the standard library.  Validated against CPython by `py2lean_c
 * text mode of `reverse_iter_lines` (round 3f; `encoding` declared to be the codec name 'utf-8'): `decodeUtf8? b` =
   `b.decode('utf-8')` - the strict UTF-8 codec (`utf8Decode`: shortest form only, no surrogates, at most U+10FFFF) giving
   the text as the list of its characters, or UnicodeDecodeError - a ValueError, the class `PyExc` has - where CPython raises.
+* `JSONLIterator.next` on a binary file (round 3f): the stored line iterator is the LIST of the lines it still yields
+  (`iterNext?` = `next(it)`: the first of them, StopIteration when there is none; `iterRest` = the iterator afterwards);
+  `lstripWs` = `bytes.lstrip()` (ASCII white space 9-13, 32), `rstripSet b chars` = `bytes.rstrip(chars)`;
+  `JsonLoads β γ` / `jsonLoads?` — `json.loads` on a line: a PARAMETER of the generated definition (type-class instance),
+  assumed to be a pure function of the line (same result or same exception whenever it is called on the same bytes);
+  `jsonLoadsFails b` = "`json.loads(b)` raises" - by that purity, `try: v = json.loads(b)` / `except Exception: H` is
+  `if jsonLoadsFails b then H else v = json.loads(b)`, and a bare `raise` in H is `json.loads(b)` raising again.
 -/
 namespace PyRtC19
 
@@ -152,5 +159,38 @@ def decodeUtf8? {β : Type} [Byte β] (b : List β) : Except PyExc (List Char) :
   match utf8Decode (b.map Byte.val) with
   | some cps => .ok (cps.map Char.ofNat)
   | none => .error PyExc.ValueError
+
+/-! ### JSONLIterator.next: the line iterator, strip, json.loads -/
+
+/-- `next(it)`, `it` an iterator that still yields the lines `ls` -/
+def iterNext? {β : Type} (ls : List (List β)) : Except PyExc (List β) :=
+  match ls with
+  | [] => .error PyExc.StopIteration
+  | l :: _ => .ok l
+
+/-- the iterator after that `next` -/
+def iterRest {β : Type} (ls : List (List β)) : List (List β) := ls.tail
+
+/-- what `bytes.lstrip()` removes -/
+def asciiWs (n : Nat) : Bool := n == 9 || n == 10 || n == 11 || n == 12 || n == 13 || n == 32
+
+/-- `b.lstrip()` -/
+def lstripWs {β : Type} [Byte β] (b : List β) : List β := b.dropWhile (fun c => asciiWs (Byte.val c))
+
+/-- `b.rstrip(chars)` -/
+def rstripSet {β : Type} [Byte β] (b chars : List β) : List β :=
+  (b.reverse.dropWhile (fun c => (chars.map Byte.val).contains (Byte.val c))).reverse
+
+/-- `json.loads` on a line: the caller's parser, a pure function of the line -/
+class JsonLoads (β : Type) (γ : outParam Type) where
+  loads : List β → Except PyExc γ
+
+def jsonLoads? {β γ : Type} [JsonLoads β γ] (b : List β) : Except PyExc γ := JsonLoads.loads b
+
+/-- does `json.loads(b)` raise? -/
+def jsonLoadsFails {β γ : Type} [JsonLoads β γ] (b : List β) : Bool :=
+  match (JsonLoads.loads b : Except PyExc γ) with
+  | .error _ => true
+  | .ok _ => false
 
 end PyRtC19
